@@ -1,6 +1,6 @@
 (* K10 -- theorems about SurfaceModel.v (C07, C08).  All unbounded: every module, every preserve set,
    every oracle (usage analysis / naming convention / replacement), every sequence of rules. *)
-From Coq Require Import List Bool String Ascii.
+From Coq Require Import List Bool String Ascii Lia PeanoNat.
 Import ListNotations.
 Require Import Pyrefact.SurfaceModel.
 Open Scope string_scope.
@@ -407,6 +407,10 @@ Definition o_delete_first : oracle :=
   {| victim := fun i _ _ => Nat.eqb i 0; svictim := fun i _ => Nat.eqb i 0; fresh := fun _ _ n => n;
      repl := fun _ => []; mrepl := fun _ _ => []; extra := fun _ => []; restatic := fun _ _ b => b |}.
 
+Definition o_delete_second_member : oracle :=
+  {| victim := fun _ j _ => Nat.eqb j 2; svictim := fun _ j => Nat.eqb j 2; fresh := fun _ _ n => n;
+     repl := fun _ => []; mrepl := fun _ _ => []; extra := fun _ => []; restatic := fun _ _ b => b |}.
+
 (* R07  the full property is refuted: a definition named `_` is in the surface and in the preserve set
    and is deleted by rules that take no preserve argument (F07-3, documented `_` convention) *)
 Theorem safe_mode_underscore_refuted :
@@ -418,6 +422,20 @@ Proof.
   - cbn. auto.
   - cbn. auto.
   - vm_compute. intros [H | []]. discriminate H.
+Qed.
+
+(* R07.5 (hunt C07-0, repaired): the pinned delete_unreachable_code took no preserve set -- a member of a
+   top-level class that is in the safe preserve set was unguarded *)
+Theorem unreachable_pinned_unguarded :
+  exists m c f, In (c, f) (member_surface m) /\ In f (safe_preserve [] m) /\
+                g_unreachable_pinned (safe_preserve [] m) (SMVar c false f) = false /\
+                ~ In (c, f) (member_surface (apply_rule g_unreachable_pinned (safe_preserve [] m) o_delete_second_member m)).
+Proof.
+  exists [Class "A" false [MOther; MAssign [TName "y"]]], "A", "y". split; [| split; [| split]].
+  - cbn. auto.
+  - cbn. auto.
+  - vm_compute. reflexivity.
+  - vm_compute. intros [].
 Qed.
 
 (* ---------------------------------------------------------------------------------------------- *)
@@ -437,6 +455,55 @@ Theorem from_import_collected :
 Proof.
   intros f a H Hf Hs. unfold used_names. apply in_or_app. left. unfold from_names.
   eapply in_flat_map_intro; [exact H |]. rewrite Hf. apply String.eqb_neq in Hs. rewrite Hs. cbn. auto.
+Qed.
+
+(* round 4: keyword names, members of client subclasses, __all__ under a starred import, mangled names *)
+Theorem keyword_collected : forall f a, In (OKeyword a) (f_occs f) -> In a (used_names f).
+Proof.
+  intros f a H. unfold used_names. apply in_or_app. right. eapply in_flat_map_intro; [exact H | cbn; auto].
+Qed.
+
+Theorem submember_collected : forall f n, In (OSubMember n) (f_occs f) -> In n (used_names f).
+Proof.
+  intros f n H. unfold used_names. apply in_or_app. right. eapply in_flat_map_intro; [exact H | cbn; auto].
+Qed.
+
+Theorem star_import_keeps_all :
+  forall f a, In a (f_imports f) -> i_from a = true -> i_name a = "*" -> In "__all__" (used_names f).
+Proof.
+  intros f a H Hf Hs. unfold used_names. apply in_or_app. left. unfold from_names.
+  eapply in_flat_map_intro; [exact H |]. rewrite Hf, Hs. cbn. auto.
+Qed.
+
+Lemma prefix_us : forall s, prefix "_" (String "_" s) = true.
+Proof.
+  intros s. cbn [prefix]. destruct (ascii_dec "_" "_") as [_ | Hne]; [destruct s; reflexivity | congruence].
+Qed.
+
+Lemma dunder_suffixes_app : forall n x i,
+  2 <= i + String.length x -> prefix "__" n = true -> 3 <= String.length n ->
+  In n (dunder_suffixes i (x ++ n)%string).
+Proof.
+  intros n x. induction x as [| a x IH]; intros i Hi Hp Hl.
+  - cbn [String.append]. destruct n as [| c tl]; [cbn in Hl; inversion Hl |].
+    cbn [dunder_suffixes]. apply in_or_app. left.
+    cbn [String.length] in Hi. rewrite PeanoNat.Nat.add_0_r in Hi.
+    apply PeanoNat.Nat.leb_le in Hi. apply PeanoNat.Nat.leb_le in Hl. rewrite Hi, Hp, Hl. cbn. auto.
+  - cbn [String.append dunder_suffixes]. apply in_or_app. right. apply IH; try assumption.
+    cbn [String.length] in Hi. rewrite <- plus_n_Sm in Hi. exact Hi.
+Qed.
+
+(* `obj._C__n` in a preserved file protects the private member `__n` (source spelling) of class C *)
+Theorem mangled_access_collected :
+  forall f b c n, In (OAttr b ("_" ++ c ++ n)%string) (f_occs f) ->
+                  1 <= String.length c -> prefix "__" n = true -> 3 <= String.length n ->
+                  In n (used_names f).
+Proof.
+  intros f b c n H Hc Hp Hl. unfold used_names. apply in_or_app. right.
+  eapply in_flat_map_intro; [exact H |]. cbn [occ_names]. right. apply in_or_app. left.
+  unfold unmangled. change ("_" ++ c ++ n)%string with (String "_" (c ++ n)%string).
+  rewrite prefix_us. change (String "_" (c ++ n)%string) with (String "_" c ++ n)%string.
+  apply dunder_suffixes_app; [cbn [String.length plus]; lia | exact Hp | exact Hl].
 Qed.
 
 (* T08.2b  names used under a starred import -- F08-4 *)
